@@ -13,6 +13,7 @@ def run(ctx, rep):
     cg.rule_utf8_flow(rep, crates['logos_codegen'])
     cg.rule_utf8_gate(rep, crates['logos_codegen'])
     rt.rule_rounding(rep, crates['logos'], 'ws-default')
+    cg.cg_controls(rep, ctx, [('M-C12a', cg.rule_utf8_flow)])
     rep.trusted += ['rustc nightly MIR', 'engines/mirfacts', 'regex-automata: thompson::Config::utf8 semantics; regex-syntax Properties::is_utf8']
     from props import gen
     gen.rules_c12(ctx, rep)
